@@ -119,7 +119,7 @@ def _closures(prog, rep, factories, mode="grad", r_guard="R03.2", r_term="R03.3"
             bare = [n for n in body_names if n not in gathered]
             construct = f"{fi.name}.{name}"
             loc = f"{fi.module.rel}:{cl.lineno}"
-            if any(c for c in calls(cl, local=False) if isinstance(c.func, ast.Name) and c.func.id not in ("_sanitize_derivatives", "float")) or any(isinstance(c.func, ast.Subscript) for c in calls(cl, local=False)):
+            if any(c for c in calls(cl, local=False) if isinstance(c.func, ast.Name) and c.func.id not in ("_sanitize_derivatives", "float", "len", "range", "int", "min", "max")) or any(isinstance(c.func, ast.Subscript) for c in calls(cl, local=False)):
                 continue  # general-path closure (calls compiled element functions)
             if bare:
                 ok = _is_full_guarded(cl, fi)
